@@ -124,18 +124,21 @@ def strategies():
     leaf = st.one_of([interval] * 8 + [finite] * 6 + [numset] * 5
                      + [st.just(["emptyset"]), st.just(["universalset"]), condset, imageset])
 
-    def op_of(sub):
-        two = st.tuples(sub, sub)
-        lists = st.lists(sub, min_size=2, max_size=3)
+    def op_of(first, other):
+        """an operation with at least one operand from `first` (so that the depth really grows)"""
+        pair = st.tuples(first, other, st.booleans()).map(lambda t: [t[1], t[0]] if t[2] else [t[0], t[1]])
+
+        def rot(t):
+            xs = [t[0], t[1], t[2]]
+            return xs[t[3]:] + xs[:t[3]]
+        triple = st.tuples(first, other, other, st.integers(0, 2)).map(rot)
         return st.one_of(
-            st.builds(lambda o, xs: [o, ["list"] + xs], st.sampled_from(LIST_OPS), lists),
-            st.builds(lambda o, xs: [o, ["list"] + xs], st.sampled_from(LIST_OPS), lists),
-            st.builds(lambda o, ab: [o, ab[0], ab[1]], st.sampled_from(PAIR_OPS), two),
-            st.builds(lambda o, ab: [o, ab[0], ab[1]], st.sampled_from(PAIR_OPS), two))
-    l1 = op_of(leaf)
-    l2 = op_of(st.one_of(leaf, leaf, l1))
-    l3 = op_of(st.one_of(leaf, leaf, l1, l2))
-    return st.one_of(l1, l2, l2, l3, l3)
+            st.builds(lambda o, xs: [o, ["list"] + xs], st.sampled_from(LIST_OPS), st.one_of(pair, pair, triple)),
+            st.builds(lambda o, xs: [o, xs[0], xs[1]], st.sampled_from(PAIR_OPS), pair))
+    l1 = op_of(leaf, leaf)
+    l2 = op_of(l1, st.one_of(leaf, leaf, l1))
+    l3 = op_of(l2, st.one_of(leaf, leaf, l1))
+    return st.one_of(l1, l2, l2, l2, l3, l3)
 
 
 # ------------------------------------------------------------------ flattening
@@ -223,7 +226,8 @@ def classes_of(dumps):
     return out
 
 
-CRASH_TAGS = ("numberset_recursion", "imageset_complement_swapped", "intersection_union_distribution")
+CRASH_TAGS = ("numberset_recursion", "imageset_complement_swapped", "intersection_union_distribution",
+              "complement_of_complement")
 NUMCLS = {"Reals", "Complexes", "Rationals", "Integers", "Naturals", "Naturals0"}
 UNION_OPS = ("set_union", "m_union")
 INTER_OPS = ("set_intersection", "m_intersection")
@@ -270,6 +274,19 @@ def crash_tags(op, kd):
             out.append("imageset_complement_swapped")     # ImageSet::set_complement(ImageSet) calls itself back
     if "Intersection" in cl and (op in UNION_OPS or "Union" in cl or "Complement" in cl):
         out.append("intersection_union_distribution")     # Intersection::set_union <-> set_intersection(Union)
+    # Complement::set_union complements the other operand in its universe and Complement::set_complement unites
+    # the universes: two Complements (given, or made by complementing in a Union of sets that keep their
+    # complements unevaluated) send them back and forth
+    ncompl = sum(1 for k in kd if k is not None for x in dump_walk(k) if x[0] == "Complement")
+    lazy = {"ConditionSet", "ImageSet", "Intersection", "Complement", "UniversalSet"} | NUMCLS
+    if ncompl >= 2 or (ncompl >= 1 and "Union" in cl):
+        out.append("complement_of_complement")
+    elif op in COMPL_OPS and len(kd) == 2 and kd[0] is not None and kd[1] is not None:
+        u, c = (kd[0], kd[1]) if op == "set_complement" else (kd[1], kd[0])
+        if u[0] == "Union" and sum(1 for m in u[1] if m[0] in lazy) >= 2:
+            out.append("complement_of_complement")
+        elif c[0] == "Union" and any(m[0] in lazy for m in c[1]):
+            out.append("complement_of_complement")
     if recursion_risk(op, kd):
         out.append("numberset_recursion")
     return out
@@ -329,7 +346,7 @@ class C27(Check):
     exe = "driver_setlogic"
     builds = [("main", ("driver_setlogic",))]
     timeout = 12.0
-    case_timeout = 60
+    case_timeout = 240
     rule = ("set expressions of depth <= 4 over intervals (rational / +-oo / a few double endpoints, all open/closed "
             "combinations, degenerate, adjacent, nested, disjoint), finite sets (1-6 rationals / integers incl. negative "
             "and multi-limb values whose hash order differs from numeric order, a few doubles and complex numbers), "
@@ -343,20 +360,25 @@ class C27(Check):
             "read structurally from its raw dump and (b) every definite answer of contains(); for expressions over "
             "intervals / finite real sets sup, inf, boundary, interior, closure are compared with the exact model. "
             "Non-trivial: >= 2 operators and an operator whose operands overlap partially, are disjoint intervals, or are "
-            "a finite set straddling an interval; distinct by recipe.")
+            "a finite set straddling an interval; distinct by recipe. (The quick tier enumerates each ordered pair under one of the "
+            "two entry points of each operation, the thorough tier under both.)")
     assumptions = ["membership of +-oo is not judged (Reals.contains(oo) etc. are conventions)",
                    "a double and an exact number of equal value are not identified nor distinguished (three-valued model); "
                    "whether a double belongs to Rationals / an integer-valued double to Integers is not judged",
                    "an exception declines the operation (and everything built from its result)",
                    "boundary / interior / closure are taken in R and judged at finite points only"]
-    tiers = {"quick": {"examples": 3000}, "thorough": {"examples": 250000}}
+    tiers = {"quick": {"examples": 2000}, "thorough": {"examples": 150000}}
 
     # ---------------------------------------------------------------- generation
     def enumerate(self, tier):
         pool = leaf_pool()
-        for op in ALL_OPS:
-            for a in pool:
-                for b in pool:
+        for k, op in enumerate(ALL_OPS):
+            for i, a in enumerate(pool):
+                for j, b in enumerate(pool):
+                    # quick: every ordered pair under one of the two entry points of each operation (free function
+                    # for i+j+k even, member function otherwise); thorough: the full table
+                    if tier == "quick" and (i + j + k) % 2:
+                        continue
                     yield {"recipe": mk(op, a, b)}
         ex = extra_leaves()
         core = [["reals"], ["rationals"], ["integers"], ["naturals0"], ["complexes"], ["universalset"], ["emptyset"],
@@ -370,9 +392,11 @@ class C27(Check):
         comp = [mk("m_union", ["rationals"], ival(0, 1)), mk("m_intersection", ["rationals"], ival(0, 1)),
                 mk("set_complement", ival(0, 3), ["rationals"]), mk("set_union", ival(0, 1), ival(2, 3)),
                 mk("m_union", ["integers"], ival(0, 1)), mk("set_complement", ["reals"], ["integers"])]
-        for op in ALL_OPS:
-            for a in comp:
-                for b in pool[::3] + comp:
+        for k, op in enumerate(ALL_OPS):
+            for i, a in enumerate(comp):
+                for j, b in enumerate(pool[::3] + comp):
+                    if tier == "quick" and (i + j + k) % 2:
+                        continue
                     yield {"recipe": mk(op, a, b)}
                     yield {"recipe": mk(op, b, a)}
 
@@ -741,7 +765,16 @@ def m_interval_complement_disjoint(case, v):
 def m_intersection_contains_any(case, v):
     """Intersection::contains answers true when any member contains the point"""
     det = _det(v)
-    return det.get("oracle") == "contains" and "Intersection" in classes_of([det.get("result")])
+    if det.get("oracle") == "contains" and "Intersection" in classes_of([det.get("result")]):
+        return True
+    # the wrong answer is also consumed inside the library: set_intersection() and set_complement_helper() test the
+    # elements of a FiniteSet with contains(), ConditionSet::set_intersection(o) puts o->contains(sym) into its
+    # condition (an Intersection answers False for a symbol)
+    ops = det.get("operands") or []
+    cl = classes_of(ops)
+    lazy = sum(1 for k in ops if k is not None for x in dump_walk(k) if x[0] in ("ConditionSet", "ImageSet", "Rationals"))
+    inter = "Intersection" in cl or (det.get("op") in INTER_OPS and lazy >= 2)
+    return inter and bool(cl & {"FiniteSet", "ConditionSet"})
 
 
 def _unordered_finite(dumps):
@@ -797,6 +830,14 @@ def m_intersection_complement_demorgan(case, v):
     return det.get("op") in UNION_OPS + COMPL_OPS and "Complement" in classes_of(ops) and len(ops) >= 2
 
 
+LAZY = NUMCLS | {"Complement", "ConditionSet", "ImageSet", "Intersection", "UniversalSet"}
+
+
+def _union_of_lazy(u):
+    """a Union with a member whose complement of a set stays an unevaluated Complement object"""
+    return any(x[0] == "Union" and any(m[0] in LAZY for m in x[1]) for x in dump_walk(u))
+
+
 def m_complement_union_outside_universe(case, v):
     """Complement::set_union(o) = universe \\ (container \\ o) loses the part of o outside the universe"""
     det = _det(v)
@@ -805,19 +846,23 @@ def m_complement_union_outside_universe(case, v):
         return True
     # universe \\ container with a Union universe is the union of the members' parts, some of which are Complements
     c, u = _container_universe(det)
-    if u is not None and det.get("expected") is True:
-        cu = classes_of([u])
-        return "Union" in cu and bool(cu & (NUMCLS | {"Complement", "ConditionSet", "ImageSet"}))
+    if u is not None:
+        return _union_of_lazy(u) or _union_of_lazy(c)
     return False
 
 
 def m_complement_of_complement(case, v):
     """Complement::set_complement(o) = (o u universe) \\ container"""
     det = _det(v)
+    if v.msg.startswith("driver crashed"):
+        # Complement::set_union -> Complement::set_complement -> ... -> set_union: unbounded recursion
+        return "Complement::set_complement" in ((det.get("stderr") or "") + v.msg)
     ops = det.get("operands") or []
-    if "Complement" not in classes_of(ops):
-        return False
     c, u = _container_universe(det)
+    if "Complement" not in classes_of(ops):
+        # universe \\ container over a Union universe unites the members' parts; parts that stay Complements
+        # are united by Complement::set_union, which complements one Complement in the other's universe
+        return u is not None and (_union_of_lazy(u) or _union_of_lazy(c))
     if c is not None:
         return "Complement" in classes_of([c])
     return det.get("op") in UNION_OPS + INTER_OPS
